@@ -210,7 +210,7 @@ Qed.
 (* ---------- a method of a UnionFile: at most one method on each inner handle ---------- *)
 Definition side_step (o : op) (s s' : mst) (h : nat) : Prop :=
   (s' = s /\ close_op o = false) \/
-  (exists ob, op_handle_of ob = Some h /\ s' = fst (m_step s ob) /\ (forall x, WfOps.wf_op x o = true -> WfOps.wf_op x ob = true) /\
+  (exists ob, op_handle_of ob = Some h /\ s' = fst (m_step s ob) /\ (forall x, WfOps.wf_op_ord x o = true -> WfOps.wf_op_ord x ob = true) /\
               (meta_op o = true -> meta_op ob = true /\ close_op ob = close_op o)).
 
 Ltac side_same := left; split; reflexivity.
